@@ -369,6 +369,21 @@ def run_case(case):
                         vio = ("batch.isolates", "bad file %s%s is not named in the report" %
                                (f["base"], f["ext"]))
                         break
+        # (4b) the format converter promises no isolation, but a tree in which every file is of
+        # the kind it converts must come out complete: each output "with the content of its source"
+        if vio is None and tool == "formatconverter":
+            want = "v10xml" if run["target"] == "v1_1" else "v11xml"
+            scope = [f for f in case["tree"] if run["recursive"] or not f["dir"]]
+            if scope and all(f["kind"] == want for f in case["tree"]):
+                if outcome[0] == "exc":
+                    vio = ("batch.complete", "formatconverter failed on a tree of convertible files "
+                           "only: %s %s" % (outcome[1], outcome[2]))
+                else:
+                    for f in scope:
+                        if not outputs.get(f["base"]):
+                            vio = ("batch.complete", "%s %s%s (in %r) got no output" %
+                                   (f["kind"], f["base"], f["ext"], f["dir"]))
+                            break
         # (5) a second tool over the result of the first: odmltordf on the odmlconv_* directory
         if vio is None and run.get("chain") and tool == "odmlconvert" and outcome[0] == "ret":
             root = "given_out/" if run["out"] == "given" else "cwd/"
